@@ -75,7 +75,11 @@ class OperatorTable(Expression):
         return self.operands.always_succeeds()
 
     def can_partially_succeed(self):
-        return not self.always_succeeds() and self.operands.can_partially_succeed()
+        # The table also fails, after consuming input, when a prefix operator is
+        # not followed by an operand.
+        return not self.always_succeeds() and (
+            self.prefixes is not None or self.operands.can_partially_succeed()
+        )
 
     def complain(self):
         return 'Unexpected input'
@@ -110,10 +114,11 @@ class OperatorTable(Expression):
                 out += (inner_checkpoint << POS)
 
             with utils.if_fails(out, flags, self.operands):
-                if self.operands.can_partially_succeed():
-                    # If we have a result, then backtrack to the checkpoint.
-                    with out.IF(operand_stack):
-                        out += (POS << outer_checkpoint)
+                # If we have a result, then backtrack to the checkpoint: the
+                # operators that were consumed after the last complete operand
+                # are not part of the result.
+                with out.IF(operand_stack):
+                    out += (POS << outer_checkpoint)
                 out += BREAK
 
             # OK, we have an operand.
